@@ -90,15 +90,17 @@ def install_io_models(I, readable=True):
     I.override(select.select, sel, kind='assumed')
 
 
-def spec_frame(I, payload_atoms, thr, enabled):
-    """frame(payload, thr) as typed atoms; returns (frame atoms, was compressed: bool-ish)."""
+def spec_frame(I, payload_atoms, thr, enabled, any_writer=False):
+    """frame(payload, thr) as typed atoms; returns (frame atoms, body atoms).
+    any_writer: the frame of ANY protocol-conforming peer - with compression enabled a peer may send the payload
+    compressed or not whatever its size (vanilla compresses from size >= threshold, pyCraft from size > threshold)."""
     payload = SBytes(payload_atoms)
     L = payload.length()
     if not enabled:
         body = list(payload.atoms)
         comp = False
     else:
-        comp = And(L > thr, thr != -1)
+        comp = I.E.new_bool('peer-compresses') if any_writer else And(L > thr, thr != -1)
         if I.truth(comp):
             z = zlib_compress(I, payload)
             body = [make_atom(I, 'VarInt', L)] + z.atoms
@@ -239,9 +241,10 @@ def decode_frame(data, enabled):
 # ------------------------------------------------------------------------------------------
 # read.frame (+ size check, unknown ids, cursor postcondition, two consecutive frames)
 # ------------------------------------------------------------------------------------------
-def make_reactor(enabled, ctx='CTX'):
+def make_reactor(enabled, ctx='CTX', threshold=256):
     r = object.__new__(PacketReactor)
-    conn = types.SimpleNamespace(options=types.SimpleNamespace(compression_enabled=enabled), context=ctx)
+    conn = types.SimpleNamespace(options=types.SimpleNamespace(compression_enabled=enabled, compression_threshold=threshold),
+                                 context=ctx)
     r.__dict__['connection'] = conn
     r.__dict__['clientbound_packets'] = {7: Probe}
     return r
@@ -265,7 +268,7 @@ class ReadFrame(Unit):
             fields = E.new_blob('fields%d' % j, hi=(1 << 21) - 8)
             thr = E.new_int('thr%d' % j, -(1 << 40), 1 << 40)
             payload = [make_atom(I, 'VarInt', pid), fields]
-            frame, body = spec_frame(I, payload, thr, self.enabled)
+            frame, body = spec_frame(I, payload, thr, self.enabled, any_writer=True)
             out += frame
             metas.append((pid, fields))
         return out, metas
@@ -277,7 +280,8 @@ class ReadFrame(Unit):
         atoms, metas = self.frames(I, nframes)
         nxt = E.new_blob('next')
         st = InStream(I, SBytes(atoms + [nxt]))
-        reactor = make_reactor(self.enabled)
+        # the reader's own threshold setting is arbitrary: decoding must not depend on it
+        reactor = make_reactor(self.enabled, threshold=E.new_int('reader-threshold'))
         for j, (pid, fields) in enumerate(metas):
             try:
                 pkt = I.call(raw(PacketReactor, 'read_packet'), reactor, st, 0)
@@ -304,6 +308,11 @@ class ReadFrame(Unit):
                 rp = replay_stream(enabled, thr, [0, 7, 300, 7], [5, 100, 70, 0], cut=None, chunk=chunk)
                 if rp['confirmed']:
                     return rp
+        for thr in (64, 256, 1):
+            rp = replay_stream(True, thr, [7, 7, 7, 300], [max(thr - 2, 0), thr - 1, thr, thr + 1], None, None, vanilla=True)
+            if rp['confirmed']:
+                rp['call'] = 'vanilla-rule writer: ' + rp['call']
+                return rp
         return rp
 
     def bounded(self, rng, tier):
@@ -316,6 +325,12 @@ class ReadFrame(Unit):
                 rp = replay_stream(enabled, thr, ids, sizes, None, chunk)
                 if rp['confirmed']:
                     fails.append(dict(call=rp['call'], observed=rp['observed'], witness='read-frame'))
+                if enabled and isinstance(thr, int) and 0 < thr < 5000:
+                    # a vanilla-rule peer: payloads of exactly threshold-1, threshold, threshold+1 bytes
+                    cnt += 1
+                    rp = replay_stream(True, thr, [7, 7, 7, 300], [max(thr - 2, 0), thr - 1, thr, thr + 1], None, chunk, vanilla=True)
+                    if rp['confirmed']:
+                        fails.append(dict(call='vanilla-rule writer: ' + rp['call'], observed=rp['observed'], witness='read-frame-vanilla'))
         return dict(name='C01.read.streams', evaluations=cnt, failures=fails[:2],
                     bound='6 threshold settings x read chunkings {1,2,3,7,whole} x 6-frame streams with sizes around the threshold')
 
@@ -342,22 +357,35 @@ class ChunkedFile(object):
         raise io.UnsupportedOperation
 
 
-def replay_stream(enabled, thr, ids, sizes, cut, chunk):
-    """Write frames with the real writer, read them back with the real reader through a chunked file."""
+def vanilla_frame(pid, rawb, thr):
+    """Independent writer following the vanilla rule: compressed iff |payload| >= threshold (threshold >= 0)."""
+    payload = wire.varint_enc(pid) + rawb
+    if thr is not None and thr >= 0 and len(payload) >= thr:
+        body = wire.varint_enc(len(payload)) + zlib.compress(payload)
+    else:
+        body = wire.varint_enc(0) + payload
+    return wire.varint_enc(len(body)) + body
+
+
+def replay_stream(enabled, thr, ids, sizes, cut, chunk, vanilla=False):
+    """Write frames with the real writer (or an independent vanilla-rule writer), read them back with the real reader
+    through a chunked file."""
     s = Sink()
     payloads = []
     for pid, n in zip(ids, sizes):
         p = _Raw()
         p.id = pid
         p.raw = bytes((i * 13 + pid) & 0xFF for i in range(n))
-        if enabled:
+        if enabled and vanilla:
+            s.send(vanilla_frame(pid, p.raw, thr))
+        elif enabled:
             p.write(s, thr)
         else:
             p.write(s)
         payloads.append((pid, p.raw))
     data = s.data if cut is None else s.data[:cut]
     f = ChunkedFile(data, chunk)
-    reactor = make_reactor(enabled)
+    reactor = make_reactor(enabled, threshold=thr if isinstance(thr, int) else -1)
     orig = select.select
     select.select = lambda r, w, x, t=None: (r, [], [])
     got = []
@@ -707,9 +735,10 @@ def replay_cipher(rng=None):
     c2 = encryption.create_AES_cipher(secret)
     sink = Sink()
     w = encryption.EncryptedSocketWrapper(sink, c1.encryptor(), c1.decryptor())
+    data = data + bytes(rng.getrandbits(8) for _ in range(rng.choice([0, 0, 5012, 70001])))
     pos = 0
     while pos < len(data):
-        k = rng.randrange(1, 400)
+        k = rng.choice([rng.randrange(1, 400), 2048, 2049, 5012, 65537])
         w.send(data[pos:pos + k])
         pos += k
     whole = c2.encryptor().update(data)
